@@ -24,6 +24,7 @@ import (
 	"github.com/avos-io/goat/gen/goatorepo"
 	"github.com/avos-io/goat/internal"
 	"github.com/avos-io/goat/internal/server"
+	"github.com/avos-io/goat/internal/verifhook"
 )
 
 // ServerOption is an option used when constructing a NewServer.
@@ -136,7 +137,9 @@ func (s *Server) RegisterService(sd *grpc.ServiceDesc, ss interface{}) {
 func (s *Server) Serve(ctx context.Context, rw RpcReadWriter) error {
 	h := newHandler(s.ctx, s, rw)
 	err := h.serve(ctx)
+	verifhook.Emit("srv.serve.exit", 0, "")
 	h.cancelAndWaitForStreams()
+	verifhook.Emit("srv.wait.done", 0, "")
 	return err
 }
 
@@ -204,11 +207,17 @@ func (h *handler) serve(clientCtx context.Context) error {
 		for {
 			select {
 			case rpc := <-h.writeChan:
+				verifhook.Emit("srv.writer.take", rpc.GetId(), "")
 				err := h.rw.Write(h.ctx, rpc)
+				if verifhook.Enabled && err == nil {
+					verifhook.Emit("srv.writer.write", rpc.GetId(), "ok")
+				}
 				if err != nil {
+					verifhook.Emit("srv.writer.write", rpc.GetId(), "err")
 					h.cancel(fmt.Errorf("write error: %v", err))
 				}
 			case <-h.ctx.Done():
+				verifhook.Emit("srv.writer.exit", 0, "")
 				return
 			}
 		}
@@ -224,13 +233,19 @@ func (h *handler) serve(clientCtx context.Context) error {
 			for {
 				select {
 				case args := <-h.unaryRpcChan:
+					verifhook.Emit("srv.worker.take", args.rpc.GetId(), "")
 					resp := h.processUnaryRpc(clientCtx, args.info, args.md, args.rpc)
+					verifhook.Emit("srv.worker.ran", args.rpc.GetId(), "")
+					verifhook.Yield("srv.worker.beforeHandoff", args.rpc.GetId())
 					select {
 					case h.writeChan <- resp:
+						verifhook.Emit("srv.worker.handoff", args.rpc.GetId(), "")
 					case <-h.ctx.Done():
+						verifhook.Emit("srv.worker.abandon", args.rpc.GetId(), "")
 						return
 					}
 				case <-unaryRpcCtx.Done():
+					verifhook.Emit("srv.worker.exit", 0, "")
 					return
 				}
 			}
@@ -454,15 +469,21 @@ func (h *handler) processStreamingRpc(
 	if handler, ok := h.streams[rpc.Id]; ok {
 		if resetStream {
 			handler.cancel()
+			verifhook.Emit("srv.stream.cancel", rpc.Id, "")
 		} else {
+			verifhook.Emit("srv.forward.enter", rpc.Id, "")
 			select {
 			case handler.ch <- rpc:
+				verifhook.Emit("srv.forward.sent", rpc.Id, "")
 			case <-handler.ctx.Done():
 				// The handler has finished (or been cancelled) and will not read
 				// this: drop it rather than block the connection on it.
+				verifhook.Emit("srv.forward.dropped", rpc.Id, "")
 			case <-clientCtx.Done():
+				verifhook.Emit("srv.forward.abort", rpc.Id, "client")
 				return clientCtx.Err()
 			case <-h.ctx.Done():
+				verifhook.Emit("srv.forward.abort", rpc.Id, "conn")
 				return context.Cause(h.ctx)
 			}
 		}
@@ -480,6 +501,7 @@ func (h *handler) processStreamingRpc(
 		// it must have an empty body. If this isn't the case, it must be because
 		// we've missed the first Rpc in the stream.
 		log.Info().Msgf("did not expect body: calling RST stream %d", rpc.Id)
+		verifhook.Emit("srv.reset", rpc.Id, "body")
 		return h.resetStream(rpc)
 	}
 
@@ -492,6 +514,7 @@ func (h *handler) processStreamingRpc(
 	ctx, cancel, err := contextFromHeaders(clientCtx, rpc.GetHeader())
 	if err != nil {
 		log.Info().Msgf("invalid headers: calling RST stream %d", rpc.Id)
+		verifhook.Emit("srv.reset", rpc.Id, "headers")
 		return h.resetStream(rpc)
 	}
 
@@ -504,6 +527,7 @@ func (h *handler) processStreamingRpc(
 		cancel: cancel,
 	}
 
+	verifhook.Emit("srv.register", streamId, "")
 	go h.runStream(info, sd, rpc, streamId, ctx, h.streams[streamId])
 	return nil
 }
@@ -578,10 +602,15 @@ func (h *handler) runStream(
 		appErr = sd.Handler(info.serviceImpl, stream)
 	}
 
+	verifhook.Emit("srv.handler.returned", streamId, "")
+	verifhook.Yield("srv.beforeTrailer", streamId)
 	err = stream.SendTrailer(appErr)
 	if err != nil {
+		verifhook.Emit("srv.trailer", streamId, "err")
 		return err
 	}
+	verifhook.Emit("srv.trailer", streamId, "ok")
+	verifhook.Yield("srv.afterTrailer", streamId)
 
 	return nil
 }
@@ -596,6 +625,9 @@ func (h *handler) unregisterStream(id uint64) {
 	}
 
 	delete(h.streams, id)
+	if verifhook.Enabled {
+		verifhook.Emit("srv.unregister", id, strconv.Itoa(len(h.streams)))
+	}
 }
 
 // resetStream instructs the caller to tear down and restart the stream. We call
